@@ -9,6 +9,7 @@ import (
 	"go/token"
 	"math/big"
 	"path/filepath"
+	"reflect"
 	"strings"
 	"unicode/utf8"
 )
@@ -21,6 +22,7 @@ type ex struct {
 	code  string
 	typ   *gtype
 	k     constant.Value // non-nil: a constant
+	fresh bool           // a map / slice that was just made (make, a composite literal, append): no alias of anything
 }
 
 // ---------------------------------------------------------------------------------------
@@ -31,11 +33,16 @@ type gvar struct {
 	coq      string
 	typ      *gtype
 	goName   string
-	indexOf  *gvar          // this is the index variable of a `for i := 0; i < len(s); i++` loop over indexOf
-	elemCode string         // ... and s[i] is this code
-	banned   string         // non-empty: any use is outside the subset, for this reason
-	known    constant.Value // the variable is known to hold this constant here (ok of a comma-ok lookup, under its match)
+	indexOf  *gvar             // this is the index variable of a `for i := 0; i < len(s); i++` loop over indexOf
+	elemCode string            // ... and s[i] is this code
+	banned   string            // non-empty: any use is outside the subset, for this reason
+	known    constant.Value    // the variable is known to hold this constant here (ok of a comma-ok lookup, under its match)
+	fcoq     map[string]string // struct variable: the Coq names that currently hold the fields that were assigned
+	ptr      bool              // struct parameter passed by pointer (assignments to its fields reach the caller)
+	seq      int               // declaration order (binder order of loop functions is declaration order, not name order)
 }
+
+var gvarSeq int
 
 type venv struct{ scopes []map[string]*gvar }
 
@@ -45,6 +52,12 @@ func (e *venv) clone() *venv {
 		m := map[string]*gvar{}
 		for k, v := range s {
 			c := *v
+			if v.fcoq != nil {
+				c.fcoq = map[string]string{}
+				for f, n := range v.fcoq {
+					c.fcoq[f] = n
+				}
+			}
 			m[k] = &c
 		}
 		n.scopes = append(n.scopes, m)
@@ -61,7 +74,11 @@ func (e *venv) lookup(name string) *gvar {
 	}
 	return nil
 }
-func (e *venv) declare(name string, v *gvar) { e.scopes[len(e.scopes)-1][name] = v }
+func (e *venv) declare(name string, v *gvar) {
+	gvarSeq++
+	v.seq = gvarSeq
+	e.scopes[len(e.scopes)-1][name] = v
+}
 
 // assign rebinds an existing variable (in the scope where it lives) to a new Coq name.
 func (e *venv) assign(name, coq string) {
@@ -90,7 +107,15 @@ type gtTr struct {
 	structs    []*gvar
 	usedFields map[string]map[string]bool
 	usedVars   map[string]bool
+	fieldNames map[string]bool
 	brk        []brkTarget
+	cnt        []brkTarget // where `continue` goes
+	cfg        *gtCfg
+	loopIndex  map[ast.Node]int // for / range statements of the function, numbered in source order from 1
+	named      []string         // named results used as variables
+	loopCache  map[ast.Node]*loopCache
+	inMutCall  bool
+	elemMut    bool // the function assigns elements of maps / slices: no local aliases of maps / slices
 }
 
 func (tr *gtTr) newName(goName string) string {
@@ -238,17 +263,31 @@ func (tr *gtTr) expr(e ast.Expr, env *venv) ex {
 				}
 			}
 		}
+		if _, isId := unparen(x.X).(*ast.Ident); !isId {
+			if a := tr.expr(x.X, env); a.typ.kind == kStruct && a.typ.storable() {
+				return tr.project(a, x.Sel.Name)
+			}
+		}
 		gtFail("selector %s is outside the subset", gtExprText(x))
 	case *ast.CompositeLit:
 		if k, ok := tr.valueKindLit(x); ok {
 			// data.Undefined{} / data.Null{} as a value: a parameter of the translated function
-			name := "v_undefined"
+			name := "val_undefined"
 			if k == kindCode("Null") {
-				name = "v_null"
+				name = "val_null"
 			}
 			tr.fn.usesV = true
 			tr.fn.valueParams[name] = true
 			return ex{code: name, typ: tValue}
+		}
+		if x.Type != nil {
+			t := tr.g.resolveTypeSoft(tr.p, tr.f, x.Type, 0)
+			if t.kind == kMap && t.supported() {
+				return tr.mapLit(x, t, env)
+			}
+			if t.kind == kStruct && t.storable() {
+				return tr.structLit(x, t, env)
+			}
 		}
 		gtFail("composite literal %s is outside the subset here", gtExprText(x.Type))
 	case *ast.SliceExpr:
@@ -258,6 +297,11 @@ func (tr *gtTr) expr(e ast.Expr, env *venv) ex {
 	case *ast.FuncLit:
 		gtFail("function literal is outside the subset")
 	case *ast.StarExpr:
+		if id, ok := unparen(x.X).(*ast.Ident); ok {
+			if v := env.lookup(id.Name); v != nil && v.ptr && v.typ.kind != kStruct {
+				return tr.useVar(v) // *s for a receiver s *T with T a named slice / map type
+			}
+		}
 		gtFail("pointer dereference is outside the subset")
 	}
 	gtFail("expression %T is outside the subset", e)
@@ -330,6 +374,15 @@ func (tr *gtTr) field(v *gvar, name string) ex {
 			if !fl.typ.supported() {
 				gtFail("field %s.%s has type %s, which is outside the subset", v.goName, name, fl.typ.name)
 			}
+			// the flattened name must not capture (or be captured by) a local variable's name
+			flat := sv.coq + "_" + name
+			if !tr.fieldNames[flat] {
+				if tr.names[flat] > 0 {
+					gtFail("the name %s of field %s.%s clashes with a local variable", flat, v.goName, name)
+				}
+				tr.fieldNames[flat] = true
+				tr.names[flat] = 1
+			}
 			if tr.usedFields[sv.goName] == nil {
 				tr.usedFields[sv.goName] = map[string]bool{}
 			}
@@ -337,7 +390,12 @@ func (tr *gtTr) field(v *gvar, name string) ex {
 			if fl.typ.usesValue() {
 				tr.fn.usesV = true
 			}
-			return ex{code: sv.coq + "_" + name, typ: fl.typ}
+			code := sv.coq + "_" + name
+			if c := v.fcoq[name]; c != "" {
+				code = c
+			}
+			tr.usedVars[code] = true
+			return ex{code: code, typ: fl.typ}
 		}
 	}
 	gtFail("%s has no field %s", v.goName, name)
@@ -380,8 +438,8 @@ func (tr *gtTr) valueKindLit(e ast.Expr) (int, bool) {
 
 func (tr *gtTr) kindOf(code string) string {
 	tr.fn.usesV = true
-	tr.fn.valueParams["v_kind"] = true
-	return "(v_kind " + code + ")"
+	tr.fn.valueParams["val_kind"] = true
+	return "(val_kind " + code + ")"
 }
 
 func (tr *gtTr) binary(x *ast.BinaryExpr, env *venv) ex {
@@ -429,8 +487,26 @@ func (tr *gtTr) binary(x *ast.BinaryExpr, env *venv) ex {
 				}
 			}
 		}
+		// err != nil / err == nil
+		if x.Op == token.EQL || x.Op == token.NEQ {
+			for _, pr := range [][2]ast.Expr{{x.X, x.Y}, {x.Y, x.X}} {
+				if isIdent(unparen(pr[1]), "nil") && env.lookup("nil") == nil {
+					a := tr.expr(pr[0], env)
+					if !a.typ.isErr {
+						gtFail("comparison of a %s with nil is outside the subset", a.typ.name)
+					}
+					if x.Op == token.NEQ {
+						return ex{binds: a.binds, code: a.code, typ: tBool}
+					}
+					return ex{binds: a.binds, code: "(negb " + a.code + ")", typ: tBool}
+				}
+			}
+		}
 		a := tr.expr(x.X, env)
 		b := tr.expr(x.Y, env)
+		if a.typ.isErr || b.typ.isErr {
+			gtFail("comparison of error values (other than with nil) is outside the subset")
+		}
 		unify(&a, &b, "comparison")
 		var code string
 		switch a.typ.kind {
@@ -606,6 +682,8 @@ func (tr *gtTr) args(list []ast.Expr, env *venv) ([]ex, []gbind) {
 }
 
 func (tr *gtTr) call(c *ast.CallExpr, env *venv) ex {
+	allowMut := tr.inMutCall // only the outermost call of a statement may change state, not a call among its arguments
+	tr.inMutCall = false
 	if c.Ellipsis.IsValid() {
 		gtFail("call with ... is outside the subset")
 	}
@@ -629,6 +707,10 @@ func (tr *gtTr) call(c *ast.CallExpr, env *venv) ex {
 				gtFail("len of %s is outside the subset", a.typ.name)
 			case "panic":
 				gtFail("panic used as an expression")
+			case "append":
+				return tr.appendCall(c, env)
+			case "make":
+				return tr.makeCall(c, env)
 			}
 			gtFail("call of %s is outside the subset", id.Name)
 		}
@@ -636,6 +718,33 @@ func (tr *gtTr) call(c *ast.CallExpr, env *venv) ex {
 	// library functions
 	if pkg, name, ok := tr.libCall(c, env); ok {
 		return tr.library(pkg, name, c, env)
+	}
+	// v.String() on a data.Value: the parameter val_string : V -> option bstr (Undefined.String panics)
+	if sel, ok := c.Fun.(*ast.SelectorExpr); ok && sel.Sel.Name == "String" && len(c.Args) == 0 {
+		isVal := false
+		switch x := unparen(sel.X).(type) {
+		case *ast.Ident:
+			if v := env.lookup(x.Name); v != nil && v.typ.kind == kValue {
+				isVal = true
+			}
+		case *ast.IndexExpr:
+			if id, ok := unparen(x.X).(*ast.Ident); ok {
+				if v := env.lookup(id.Name); v != nil && v.typ.kind == kSlice && v.typ.elem.kind == kValue {
+					isVal = true
+				}
+			}
+		}
+		if isVal {
+			a := tr.expr(sel.X, env)
+			tr.fn.usesV = true
+			tr.fn.valueParams["val_string"] = true
+			o := tr.fresh()
+			return ex{binds: mergeBinds(a.binds, []gbind{{o, "val_string " + a.code}}), code: o, typ: tString}
+		}
+	}
+	// x.M() on a parameter of a /repo interface type: the value is a parameter of the translated function
+	if e, ok := tr.ifaceMethod(c, env); ok {
+		return e
 	}
 	// functions and methods of /repo
 	callee, recvExpr := tr.resolveCallee(c, env)
@@ -670,12 +779,17 @@ func (tr *gtTr) call(c *ast.CallExpr, env *venv) ex {
 		e.binds = nil
 		args = append(args, tr.checkArg(callee, i, e))
 	}
+	tr.inMutCall = allowMut
+	defer func() { tr.inMutCall = false }()
 	return tr.applyFn(callee, args, binds)
 }
 
 // applyFn builds the call of a translated (or abstract) function.
 func (tr *gtTr) applyFn(callee *gtFn, args []ex, binds []gbind) ex {
-	if len(callee.results) != 1 {
+	if len(callee.muts) > 0 && !tr.inMutCall {
+		gtFail("call of %s, which changes its receiver or an argument, inside an expression (only as a statement or as the whole right-hand side of an assignment)", callee.key)
+	}
+	if len(callee.results) != 1 && len(callee.muts) == 0 && !tr.inMutCall {
 		gtFail("call of %s, which does not return exactly one value", callee.key)
 	}
 	parts := []string{callee.coqName}
@@ -687,7 +801,17 @@ func (tr *gtTr) applyFn(callee *gtFn, args []ex, binds []gbind) ex {
 		parts = append(parts, a.code)
 	}
 	code := "(" + strings.Join(parts, " ") + ")"
-	rt := callee.results[0]
+	var rt *gtype
+	if len(callee.muts) > 0 || len(callee.results) != 1 {
+		rt = &gtype{kind: kOther, name: "(state, results) of " + callee.key, valueKind: -1}
+		for _, r := range callee.results {
+			if r.usesValue() {
+				tr.fn.usesV = true
+			}
+		}
+	} else {
+		rt = callee.results[0]
+	}
 	if rt.usesValue() {
 		tr.fn.usesV = true
 	}
@@ -842,6 +966,10 @@ func (tr *gtTr) conversion(to *gtype, arg ast.Expr, env *venv) ex {
 			return ex{binds: a.binds, code: a.code, typ: to}
 		}
 		return ex{binds: a.binds, code: a.code, typ: to, k: a.k}
+	case to.kind == kString && to != tBytes && a.typ.kind == kSlice && a.typ.elem.kind == kInt && a.typ.elem.bits == 32 && a.typ.elem.signed:
+		// string([]rune): UTF-8 encoding is not part of the vocabulary here; the conversion is the parameter f_string_runes
+		tr.fn.addAbstract(gtAbstract{name: "f_string_runes", typ: "list Z -> bstr"})
+		return ex{binds: a.binds, code: "(f_string_runes " + a.code + ")", typ: tString}
 	case to.kind == kString && a.typ.kind == kInt:
 		gtFail("string(rune) is outside the subset")
 	}
@@ -867,6 +995,25 @@ func (tr *gtTr) library(pkg, name string, c *ast.CallExpr, env *venv) ex {
 		}
 		tr.fn.preds[predParam[name]] = true
 		return ex{binds: a.binds, code: "(" + predParam[name] + " " + a.code + ")", typ: tBool}
+	case pkg == "errors" && name == "New":
+		// an error value: only "is not nil" is modelled; the message must still be evaluated (it may panic)
+		need(1)
+		a := tr.expr(c.Args[0], env)
+		if a.typ.kind != kString {
+			gtFail("errors.New of a non-string")
+		}
+		if len(a.binds) > 0 {
+			d := tr.fresh()
+			return ex{binds: mergeBinds(a.binds, []gbind{{d, "Some " + paren(a.code)}}), code: "true", typ: tErr}
+		}
+		return ex{code: "true", typ: tErr}
+	case pkg == "unicode/utf8" && name == "RuneStart":
+		need(1)
+		a := tr.expr(c.Args[0], env)
+		if a.typ.kind != kInt || a.typ.bits != 8 || a.typ.signed {
+			gtFail("utf8.RuneStart of a non-byte")
+		}
+		return ex{binds: a.binds, code: "(negb (Z.eqb (Z.land " + a.code + " 192%Z) 128%Z))", typ: tBool}
 	case pkg == "strings" && name == "ContainsRune":
 		need(2)
 		return tr.memRune(c.Args[0], c.Args[1], env, full)
@@ -882,6 +1029,27 @@ func (tr *gtTr) library(pkg, name string, c *ast.CallExpr, env *venv) ex {
 			return ex{binds: binds, code: "(is_prefix " + args[1].code + " " + args[0].code + ")", typ: tBool}
 		}
 		return ex{binds: binds, code: "(go_has_suffix " + args[1].code + " " + args[0].code + ")", typ: tBool}
+	case (pkg == "strings" || pkg == "bytes") && (name == "TrimPrefix" || name == "TrimSuffix"):
+		need(2)
+		args, binds := tr.args(c.Args, env)
+		if args[0].typ.kind != kString || args[1].typ.kind != kString {
+			gtFail("%s: arguments are not strings", full)
+		}
+		fn := "go_trim_prefix"
+		if name == "TrimSuffix" {
+			fn = "go_trim_suffix"
+		}
+		return ex{binds: binds, code: "(" + fn + " " + args[1].code + " " + args[0].code + ")", typ: args[0].typ}
+	case (pkg == "strings" || pkg == "bytes") && (name == "ToLower" || name == "ToUpper"):
+		// Unicode case mapping is not modelled here: the function stays a parameter (f_strings_ToLower : bstr -> bstr)
+		need(1)
+		a := tr.expr(c.Args[0], env)
+		if a.typ.kind != kString {
+			gtFail("%s of a non-string", full)
+		}
+		pn := "f_strings_" + name
+		tr.fn.addAbstract(gtAbstract{name: pn, typ: "bstr -> bstr"})
+		return ex{binds: a.binds, code: "(" + pn + " " + a.code + ")", typ: a.typ}
 	case pkg == "strings" && (name == "Replace" || name == "ReplaceAll"):
 		if name == "Replace" {
 			need(4)
@@ -945,7 +1113,7 @@ func (tr *gtTr) library(pkg, name string, c *ast.CallExpr, env *venv) ex {
 }
 
 // toValue: the implicit conversion of a concrete data.Bool / data.Int / data.String to the interface data.Value.
-var valueCtor = map[string]struct{ name, typ string }{"Bool": {"v_of_bool", "bool -> V"}, "Int": {"v_of_int", "Z -> V"}, "String": {"v_of_string", "bstr -> V"}}
+var valueCtor = map[string]struct{ name, typ string }{"Bool": {"val_of_bool", "bool -> V"}, "Int": {"val_of_int", "Z -> V"}, "String": {"val_of_string", "bstr -> V"}}
 
 func (tr *gtTr) toValue(v ex, what string) ex {
 	if v.typ.kind == kValue {
@@ -963,7 +1131,7 @@ func (tr *gtTr) toValue(v ex, what string) ex {
 }
 
 // x.(data.T) in its one-valued form: the payload, or a panic when x holds another type.  The projection is a
-// parameter v_as_<kind> : V -> option <payload>.
+// parameter val_as_<kind> : V -> option <payload>.
 func (tr *gtTr) assertPayload(x *ast.TypeAssertExpr, env *venv) ex {
 	if x.Type == nil {
 		gtFail("x.(type) outside a type switch")
@@ -976,7 +1144,7 @@ func (tr *gtTr) assertPayload(x *ast.TypeAssertExpr, env *venv) ex {
 	if t.valueKind < 0 {
 		gtFail("type assertion to %s, which is not a concrete data type", t.name)
 	}
-	name := "v_as_" + strings.ToLower(valueKinds[t.valueKind])
+	name := "val_as_" + strings.ToLower(valueKinds[t.valueKind])
 	found := false
 	for _, vp := range valueParamOrder {
 		if vp.name == name {
@@ -1073,11 +1241,11 @@ func (tr *gtTr) index(x *ast.IndexExpr, env *venv) ex {
 
 // s[lo:hi] on a string / []byte: None when the bounds are out of range (Go panics)
 func (tr *gtTr) slice(x *ast.SliceExpr, env *venv) ex {
-	if x.Slice3 {
-		gtFail("three-index slice is outside the subset")
+	if x.Slice3 && (x.High == nil || x.Max == nil || gtExprString(x.High) != gtExprString(x.Max)) {
+		gtFail("three-index slice other than s[lo:hi:hi] is outside the subset")
 	}
 	s := tr.expr(x.X, env)
-	if s.typ.kind != kString {
+	if s.typ.kind != kString && s.typ.kind != kSlice {
 		gtFail("slicing a %s is outside the subset", s.typ.name)
 	}
 	binds := s.binds
@@ -1099,7 +1267,11 @@ func (tr *gtTr) slice(x *ast.SliceExpr, env *venv) ex {
 		hi = h.code
 	}
 	v := tr.fresh()
-	return ex{binds: mergeBinds(binds, []gbind{{v, "go_slice " + s.code + " " + lo + " " + hi}}), code: v, typ: s.typ}
+	fn := "go_slice"
+	if s.typ.kind == kSlice {
+		fn = "go_slice_l"
+	}
+	return ex{binds: mergeBinds(binds, []gbind{{v, fn + " " + s.code + " " + lo + " " + hi}}), code: v, typ: s.typ}
 }
 
 func elemType(t *gtype) *gtype {
@@ -1107,4 +1279,272 @@ func elemType(t *gtype) *gtype {
 		return basicInts["byte"]
 	}
 	return t.elem
+}
+
+// append(s, x, ...) on a slice of the subset: the value is s followed by the new elements.  (Go may or may not
+// reuse s's array; the translation is the value semantics, see STATE in gotrans.go.)
+func (tr *gtTr) appendCall(c *ast.CallExpr, env *venv) ex {
+	if len(c.Args) < 1 {
+		gtFail("append: arity")
+	}
+	s := tr.expr(c.Args[0], env)
+	if s.typ.kind != kSlice && s.typ != tBytes {
+		gtFail("append to a %s is outside the subset", s.typ.name)
+	}
+	et := elemType(s.typ)
+	binds := s.binds
+	var elems []string
+	for _, a := range c.Args[1:] {
+		e := tr.expr(a, env)
+		if et.kind == kValue {
+			e = tr.toValue(e, "append")
+		}
+		if e.typ.kind != et.kind {
+			gtFail("append of a %s to %s", e.typ.name, s.typ.name)
+		}
+		if e.typ.kind == kInt && e.typ.untyped && e.k != nil && !fitsInt(e.k, et) {
+			gtFail("append: constant %s overflows %s", e.k, et.name)
+		}
+		binds = mergeBinds(binds, e.binds)
+		if s.typ == tBytes {
+			elems = append(elems, "Z.to_N "+e.code)
+		} else {
+			elems = append(elems, e.code)
+		}
+	}
+	return ex{binds: binds, code: "(" + s.code + " ++ [" + strings.Join(elems, "; ") + "])", typ: s.typ, fresh: true}
+}
+
+// make(map[K]V) / make(map[K]V, n): the empty map
+func (tr *gtTr) makeCall(c *ast.CallExpr, env *venv) ex {
+	if len(c.Args) < 1 {
+		gtFail("make: arity")
+	}
+	t := tr.g.resolveType(tr.p, tr.f, c.Args[0], 0)
+	if t.kind == kSlice && t.supported() && len(c.Args) >= 2 {
+		// make([]T, 0, cap): the empty slice (the capacity is not observable in the subset)
+		if n, isInt := intLit(c.Args[1]); isInt && n == 0 {
+			for _, a := range c.Args[2:] {
+				if e := tr.expr(a, env); len(e.binds) > 0 || e.typ.kind != kInt {
+					gtFail("make: capacity argument")
+				}
+			}
+			if t.usesValue() {
+				tr.fn.usesV = true
+			}
+			return ex{code: "(@nil " + paren(t.elem.coq()) + ")", typ: t, fresh: true}
+		}
+	}
+	if t.kind != kMap || !t.supported() {
+		gtFail("make(%s) is outside the subset (only maps, and slices of length 0)", t.name)
+	}
+	if t.usesValue() {
+		tr.fn.usesV = true
+	}
+	for _, a := range c.Args[1:] {
+		if e := tr.expr(a, env); len(e.binds) > 0 || e.typ.kind != kInt {
+			gtFail("make: size argument")
+		}
+	}
+	return ex{code: "(@nil (" + t.key.coq() + " * " + t.elem.coq() + "))", typ: t, fresh: true}
+}
+
+// map[K]V{k1: v1, ...}: the entries are inserted in source order (a later equal key replaces an earlier one)
+func (tr *gtTr) mapLit(x *ast.CompositeLit, t *gtype, env *venv) ex {
+	if t.usesValue() {
+		tr.fn.usesV = true
+	}
+	set := "go_map_set_s"
+	if t.key.kind == kInt {
+		set = "go_map_set_z"
+	}
+	code := "(@nil (" + t.key.coq() + " * " + t.elem.coq() + "))"
+	var binds []gbind
+	for _, el := range x.Elts {
+		kv, ok := el.(*ast.KeyValueExpr)
+		if !ok {
+			gtFail("map literal element is not key: value")
+		}
+		k := tr.expr(kv.Key, env)
+		v := tr.expr(kv.Value, env)
+		if t.elem.kind == kValue {
+			v = tr.toValue(v, "map literal")
+		}
+		if k.typ.kind != t.key.kind || v.typ.kind != t.elem.kind {
+			gtFail("map literal entry of kinds %s: %s in a %s", k.typ.name, v.typ.name, t.name)
+		}
+		binds = mergeBinds(mergeBinds(binds, k.binds), v.binds)
+		code = "(" + set + " " + k.code + " " + v.code + " " + code + ")"
+	}
+	return ex{binds: binds, code: code, typ: t, fresh: true}
+}
+
+func gtExprString(e ast.Expr) string {
+	var sb strings.Builder
+	ast.Fprint(&sb, nil, e, func(name string, v reflect.Value) bool {
+		return name != "NamePos" && name != "ValuePos" && name != "OpPos" && name != "Lparen" && name != "Rparen" && name != "Lbrack" && name != "Rbrack" && name != "Obj"
+	})
+	return sb.String()
+}
+
+// structPattern: the pattern that binds field name of a struct value as fld_<name> (the others as _).
+func structPattern(t *gtype, names map[string]bool) string {
+	var ps []string
+	for _, fl := range t.fields {
+		if names[fl.name] {
+			ps = append(ps, "fld_"+fl.name)
+		} else {
+			ps = append(ps, "_")
+		}
+	}
+	if len(ps) == 1 {
+		return ps[0]
+	}
+	return "'(" + strings.Join(ps, ", ") + ")"
+}
+
+// project: field name of a struct value (a tuple)
+func (tr *gtTr) project(a ex, name string) ex {
+	for _, fl := range a.typ.fields {
+		if fl.name == name {
+			if fl.typ.usesValue() {
+				tr.fn.usesV = true
+			}
+			return ex{binds: a.binds, code: "(let " + structPattern(a.typ, map[string]bool{name: true}) + " := " + a.code + " in fld_" + name + ")", typ: fl.typ}
+		}
+	}
+	gtFail("%s has no field %s", a.typ.name, name)
+	return ex{}
+}
+
+// withField: the struct value a with field name replaced by v
+func (tr *gtTr) withField(a ex, name string, v ex) ex {
+	all := map[string]bool{}
+	var vals []string
+	found := false
+	for _, fl := range a.typ.fields {
+		all[fl.name] = true
+		if fl.name == name {
+			found = true
+			if fl.typ.kind == kValue {
+				v = tr.toValue(v, "field")
+			}
+			if v.typ.kind != fl.typ.kind {
+				gtFail("assignment of a %s to field %s of type %s", v.typ.name, name, fl.typ.name)
+			}
+			vals = append(vals, v.code)
+		} else {
+			vals = append(vals, "fld_"+fl.name)
+		}
+	}
+	if !found {
+		gtFail("%s has no field %s", a.typ.name, name)
+	}
+	delete(all, name)
+	return ex{binds: mergeBinds(a.binds, v.binds), code: "(let " + structPattern(a.typ, all) + " := " + a.code + " in " + tupleOf(vals) + ")", typ: a.typ}
+}
+
+// T{a, b} / T{f: a, g: b} for a struct type whose values are tuples: every field must be given
+func (tr *gtTr) structLit(x *ast.CompositeLit, t *gtype, env *venv) ex {
+	vals := make([]string, len(t.fields))
+	var binds []gbind
+	set := func(i int, e ast.Expr) {
+		v := tr.expr(e, env)
+		ft := t.fields[i].typ
+		if ft.kind == kValue {
+			v = tr.toValue(v, "struct literal")
+		}
+		if v.typ.kind != ft.kind {
+			gtFail("struct literal: a %s for field %s of type %s", v.typ.name, t.fields[i].name, ft.name)
+		}
+		if v.typ.kind == kInt && v.typ.untyped && v.k != nil && !fitsInt(v.k, ft) {
+			gtFail("struct literal: constant %s overflows %s", v.k, ft.name)
+		}
+		binds = mergeBinds(binds, v.binds)
+		vals[i] = v.code
+	}
+	for i, el := range x.Elts {
+		if kv, ok := el.(*ast.KeyValueExpr); ok {
+			id, _ := kv.Key.(*ast.Ident)
+			found := false
+			for j, fl := range t.fields {
+				if id != nil && fl.name == id.Name {
+					set(j, kv.Value)
+					found = true
+				}
+			}
+			if !found {
+				gtFail("struct literal: unknown field")
+			}
+			continue
+		}
+		if i >= len(t.fields) {
+			gtFail("struct literal: too many values")
+		}
+		set(i, el)
+	}
+	for i, v := range vals {
+		if v == "" {
+			vals[i] = zeroOf(t.fields[i].typ)
+		}
+	}
+	if t.usesValue() {
+		tr.fn.usesV = true
+	}
+	return ex{binds: binds, code: tupleOf(vals), typ: t, fresh: true}
+}
+
+// ifaceMethod: node.Position() for a parameter `node ast.Node`: an argument-less method of an interface type of /repo,
+// called on a parameter that is never assigned.  What it returns is not determined by anything the translated function
+// sees, so it becomes a parameter m_<param>_<Method> of the method's result type (one per parameter and method: Go's
+// method may in principle answer differently on each call; the functions translated so call it on an immutable AST
+// node, see gotrans_apply.go).
+func (tr *gtTr) ifaceMethod(c *ast.CallExpr, env *venv) (ex, bool) {
+	sel, ok := c.Fun.(*ast.SelectorExpr)
+	if !ok || len(c.Args) != 0 {
+		return ex{}, false
+	}
+	id, ok := unparen(sel.X).(*ast.Ident)
+	if !ok {
+		return ex{}, false
+	}
+	v := env.lookup(id.Name)
+	if v == nil || v.typ.kind != kOther || v.typ.ndir == "" {
+		return ex{}, false
+	}
+	isParam := false
+	for _, prm := range tr.fn.params {
+		if prm.goName == id.Name {
+			isParam = true
+		}
+	}
+	p := tr.g.gtPkg(v.typ.ndir)
+	ts := p.types[v.typ.nname]
+	if ts == nil || !isParam {
+		return ex{}, false
+	}
+	it, ok := ts.Type.(*ast.InterfaceType)
+	if !ok {
+		return ex{}, false
+	}
+	for _, m := range it.Methods.List {
+		ft, isFn := m.Type.(*ast.FuncType)
+		if !isFn || len(m.Names) != 1 || m.Names[0].Name != sel.Sel.Name {
+			continue
+		}
+		if ft.Params != nil && len(ft.Params.List) > 0 {
+			return ex{}, false
+		}
+		if ft.Results == nil || len(ft.Results.List) != 1 || len(ft.Results.List[0].Names) > 1 {
+			gtFail("interface method %s.%s does not return exactly one value", v.typ.name, sel.Sel.Name)
+		}
+		rt := tr.g.resolveType(p, p.typeIn[v.typ.nname], ft.Results.List[0].Type, 0)
+		if !rt.supported() || rt.usesValue() {
+			gtFail("interface method %s.%s returns a %s", v.typ.name, sel.Sel.Name, rt.name)
+		}
+		name := "m_" + id.Name + "_" + sel.Sel.Name
+		tr.fn.addAbstract(gtAbstract{name: name, typ: rt.coq()})
+		return ex{code: name, typ: rt}, true
+	}
+	return ex{}, false
 }
